@@ -52,8 +52,8 @@ def build_go_tool(name, pkgdir, ldflags=None):
     out = os.path.join(BIN, name)
     with Lock("build-go"):
         os.makedirs(BIN, exist_ok=True)
-        shutil.copy(os.path.join(REPO, "go.sum"), os.path.join(pkgdir, "go.sum"))
-        cmd = ["go", "build", "-tags", "verif"]
+        mf = modfile(pkgdir)
+        cmd = ["go", "build", "-tags", "verif"] + mf
         if ldflags:
             cmd += ["-ldflags", ldflags]
         cmd += ["-o", out, "."]
@@ -67,13 +67,31 @@ class BuildError(Exception):
     pass
 
 
+def repo_tag():
+    r = os.path.realpath(REPO)
+    return "" if r == "/repo" else "_" + hashlib.sha256(r.encode()).hexdigest()[:8]
+
+
+def modfile(moddir):
+    """go.sum comes from the repository under test; when VERIF_REPO is not /repo the replace directive is
+    redirected through an alternative module file (so mutants can be checked in a scratch copy)"""
+    shutil.copy(os.path.join(REPO, "go.sum"), os.path.join(moddir, "go.sum"))
+    if os.path.realpath(REPO) == "/repo":
+        return []
+    alt = os.path.join(moddir, "go.alt.mod")
+    src = open(os.path.join(moddir, "go.mod")).read().replace("=> /repo", "=> " + os.path.realpath(REPO))
+    open(alt, "w").write(src)
+    shutil.copy(os.path.join(REPO, "go.sum"), os.path.join(moddir, "go.alt.sum"))
+    return ["-modfile=" + alt]
+
+
 def build_harness(pkg):
     """go test -c of harness/<pkg>, against the working tree of REPO (replace directive), tag verif"""
-    out = os.path.join(BIN, "h_" + pkg)
+    out = os.path.join(BIN, "h_" + pkg + repo_tag())
     with Lock("build-go"):
         os.makedirs(BIN, exist_ok=True)
-        shutil.copy(os.path.join(REPO, "go.sum"), os.path.join(HARNESS, "go.sum"))
-        rc, o = sh(["go", "test", "-c", "-tags", "verif", "-o", out, "./" + pkg], cwd=HARNESS, env=GOENV)
+        mf = modfile(HARNESS)
+        rc, o = sh(["go", "test", "-c", "-tags", "verif"] + mf + ["-o", out, "./" + pkg], cwd=HARNESS, env=GOENV)
         if rc != 0:
             raise BuildError("harness %s does not build against the working tree:\n%s" % (pkg, o))
     return out
